@@ -35,7 +35,7 @@ type c01Case struct {
 	CertType string   `json:"cert_type"` // ssh x509 x509-kubernetes bogus ""
 	Method   string   `json:"method"`
 	Sealed   bool     `json:"sealed"`
-	Other    bool     `json:"other_user"` // request a certificate for another user name
+	Other    bool     `json:"other_user"`         // request a certificate for another user name
 	KeyKind  string   `json:"key_kind,omitempty"` // p256 (default) | ed25519 | rsa2048
 }
 
@@ -189,7 +189,6 @@ func c01Check(c c01Case) *vResult {
 	}
 	return res
 }
-
 
 func c01GenCred(t *rapid.T) vCred {
 	if rapid.IntRange(0, 9).Draw(t, "credClass") < 5 {
